@@ -1447,7 +1447,7 @@ package log
 
 //@ func (*RollingFileAppender).Start
 //@   requires c != nil
-//@   modifies atomPtr[c.file], atomI64[c.currTime], fdOpen, fdFlags, fdPath, lastNow
+//@   modifies atomPtr[c.file], atomI64[c.currTime], fdOpen, fdFlags, fdPath, lastNow, nilStores[c.file]
 //@   ensures[C13:first-file] result == nil ==> atomPtr[c.file] != nil && fdOpen[atomPtr[c.file]] && fdPath[atomPtr[c.file]] == rfaPath(c, lastNow) && fdFlags[atomPtr[c.file]] == os.O_CREATE + os.O_WRONLY + os.O_APPEND && atomI64[c.currTime] == time_unix(time_trunc(lastNow, c.Rotation.Interval))
 //@   ensures[C19:failure-keeps-state] result != nil ==> atomPtr[c.file] == old(atomPtr[c.file])
 
@@ -1461,8 +1461,10 @@ package log
 //@   let t0 = atomI64[c.currTime]
 //@   let f0 = atomPtr[c.file]
 //@   let o0 = atomPtr[c.oldFile]
-//@   modifies atomPtr[c.file], atomPtr[c.oldFile], atomI64[c.currTime], fdOpen, fdFlags, fdPath, lastNow, spawned, interfered
+//@   modifies atomPtr[c.file], atomPtr[c.oldFile], atomI64[c.currTime], fdOpen, fdFlags, fdPath, lastNow, spawned, interfered, nilStores[c.file], nilStores[c.oldFile], casWins[c.currTime]
 //@   nopanic[C19]
+//@   ensures[C03,C13:the-current-file-cell-is-never-emptied] nilStores[c.file] == old(nilStores[c.file])
+//@   ensures[C05,C13:only-the-winner-of-the-boundary-rotates] atomPtr[c.file] != f0 || atomPtr[c.oldFile] != o0 ==> casWins[c.currTime] > old(casWins[c.currTime])
 //@   ensures[C13:same-interval-nothing-changes] time_unix(time_trunc(lastNow, c.Rotation.Interval)) <= t0 ==> atomPtr[c.file] == f0 && atomPtr[c.oldFile] == o0 && atomI64[c.currTime] == t0 && spawned == old(spawned)
 //@   ensures[C13,C19:boundary-is-recorded-once] time_unix(time_trunc(lastNow, c.Rotation.Interval)) > t0 && !interfered ==> atomI64[c.currTime] == time_unix(time_trunc(lastNow, c.Rotation.Interval))
 //@   ensures[C19:failed-creation-keeps-the-current-file] time_unix(time_trunc(lastNow, c.Rotation.Interval)) > t0 && atomPtr[c.file] == f0 ==> (f0 != nil ==> fdOpen[f0] == old(fdOpen[f0]))
@@ -1473,20 +1475,21 @@ package log
 //@ func (*RollingFileAppender).Write
 //@   requires c != nil && 0 <= c.MaxAge && c.MaxAge <= 2562047 && rfaCells(c)
 //@   maintains[C05,C19:current-and-old-file-differ] rfaDistinct(c)
-//@   modifies atomPtr[c.file], atomPtr[c.oldFile], atomI64[c.currTime], fdOpen, fdFlags, fdPath, lastNow, spawned, sink, interfered
+//@   modifies atomPtr[c.file], atomPtr[c.oldFile], atomI64[c.currTime], fdOpen, fdFlags, fdPath, lastNow, spawned, sink, interfered, nilStores[c.file], nilStores[c.oldFile], casWins[c.currTime]
 //@   nopanic[C19]
+//@   ensures[C03,C13:the-current-file-cell-is-never-emptied] nilStores[c.file] == old(nilStores[c.file])
 //@   ensures[C13,C20:one-write-to-the-current-file] atomPtr[c.file] != nil ==> sink == tsnoc(old(sink), 3, atomPtr[c.file], sref(b), len(b), content(b))
 //@   ensures[C19:no-file-no-write] atomPtr[c.file] == nil ==> sink == old(sink)
 
 //@ func (*RollingFileAppender).Append
 //@   requires c != nil && c.Layout != nil && e != nil && 0 <= c.MaxAge && c.MaxAge <= 2562047 && rfaCells(c)
 //@   maintains[C05,C19:current-and-old-file-differ] rfaDistinct(c)
-//@   modifies atomPtr[c.file], atomPtr[c.oldFile], atomI64[c.currTime], fdOpen, fdFlags, fdPath, lastNow, spawned, sink, lastBytes, interfered
+//@   modifies atomPtr[c.file], atomPtr[c.oldFile], atomI64[c.currTime], fdOpen, fdFlags, fdPath, lastNow, spawned, sink, lastBytes, interfered, nilStores[c.file], nilStores[c.oldFile], casWins[c.currTime]
 //@   ensures[C03,C13,C20:one-line] atomPtr[c.file] != nil ==> sink == tsnoc(old(sink), 3, atomPtr[c.file], sref(lastBytes), len(lastBytes), content(lastBytes))
 
 //@ func (*RollingFileAppender).Stop
 //@   requires c != nil
-//@   modifies atomPtr[c.file], atomPtr[c.oldFile], fdOpen
+//@   modifies atomPtr[c.file], atomPtr[c.oldFile], fdOpen, nilStores[c.file], nilStores[c.oldFile]
 //@   nopanic[C05,C19]
 //@   ensures[C05:both-descriptors-released] atomPtr[c.file] == nil && atomPtr[c.oldFile] == nil && (old(atomPtr[c.file]) != nil ==> !fdOpen[old(atomPtr[c.file])]) && (old(atomPtr[c.oldFile]) != nil ==> !fdOpen[old(atomPtr[c.oldFile])])
 
@@ -1635,3 +1638,25 @@ package log
 //@   loop 1 iteration[C15:inline-keys-stored-below-the-camel-cased-name] inlineKey($key) ==> (forall k2 string :: subMap != nil && has(subMap, k2) ==> stHas[s][inlineBase($key) + "." + toCamelKey(k2)])
 //@   loop 2 invariant[C15:storage] s != nil && inlineKey($key1)
 //@   loop 2 invariant[C15:inline-keys-so-far] forall k2 string :: $visited[k2] ==> stHas[s][inlineBase($key1) + "." + toCamelKey(k2)]
+
+// ---- C15: size values ("10KB") ----------------------------------------------------------------------------------
+// A value is digits followed by a unit of the table; anything else is an error, and so is a size that does
+// not fit the integer type (no silent wrap-around).
+//@ spec fun sizeTableOK() bool = bytesSizeTable != nil && (forall u string :: has(bytesSizeTable, u) ==> bytesSizeTable[u] >= 1)
+//@ func ParseHumanizeBytes
+//@   requires sizeTableOK()
+//@   modifies nothing
+//@   nopanic[C15]
+//@   nooverflow[C15]
+//@   ensures[C15:error-means-zero] result1 != nil ==> result0 == 0
+//@   ensures[C15:sizes-are-not-negative] result1 == nil ==> result0 >= 0
+//@   loop 1 invariant[C15:digits-counted] 0 <= lastDigit && lastDigit <= $pos && $pos <= len(s)
+//@   loop 1 invariant[C15:no-sign] (lastDigit == 0 ==> $pos == 0) && (lastDigit >= 1 ==> s[0] != '-')
+//@   replay s=s
+
+// the bufferCap property: a size that does not fit the 32-bit capacity is an error
+//@ func RegisterProperty(bufferCap)
+//@   requires sizeTableOK()
+//@   nopanic[C15]
+//@   nooverflow[C15]
+//@   ensures[C15:bad-size-is-an-error] true
